@@ -1,4 +1,5 @@
 import PPProofs.Props.C20
+import PPProofs.Props.C20Links
 #print axioms PP.Diagram.bookmarks_distinct
 #print axioms PP.Diagram.output_sorted
 #print axioms PP.Diagram.unnamed_never_extracted
@@ -11,3 +12,14 @@ import PPProofs.Props.C20
 #print axioms PP.Diagram.unnamed_forward_root_witness
 #print axioms PP.Diagram.root_not_first_witness
 #print axioms PP.Diagram.named_cycle_ok
+#print axioms PP.Diagram.links_resolve_partial
+#print axioms PP.Diagram.root_first_partial
+#print axioms PP.Diagram.root_first_unnamed_partial
+#print axioms PP.Diagram.no_empty_placeholder_partial
+#print axioms PP.Diagram.no_empty_placeholder_output_partial
+#print axioms PP.Diagram.no_empty_placeholder_tree_partial
+#print axioms PP.Diagram.no_dangling_reference
+#print axioms PP.Diagram.no_empty_placeholder_of_acyclic_partial
+#print axioms PP.Diagram.conv_HS
+#print axioms PP.Diagram.conv_KD
+#print axioms PP.Diagram.conv_step
